@@ -32,6 +32,7 @@
 package main
 
 import (
+	"os"
 	"time"
 
 	"verif/lib/gen"
@@ -100,9 +101,24 @@ func caseRng(c *run.Case) *gen.Rng {
 }
 
 func body(w *run.Worker) {
-	w.Cases("seq", w.N(1600, 60000), func(c *run.Case) { seqCase(c, w, caseRng(c)) })
-	w.Cases("ecache", w.N(800, 30000), func(c *run.Case) { ecacheCase(c, w, caseRng(c)) })
-	w.Cases("conc", w.N(1400, 40000), func(c *run.Case) {
+	if only := os.Getenv("C17_ONLY"); only != "" { // debugging aid: run one group only (floors will be missed)
+		switch only {
+		case "seq":
+			w.Cases("seq", w.N(1600, 50000), func(c *run.Case) { seqCase(c, w, caseRng(c)) })
+		case "ecache":
+			w.Cases("ecache", w.N(800, 20000), func(c *run.Case) { ecacheCase(c, w, caseRng(c)) })
+		case "repl":
+			w.Cases("conc", w.N(1400, 30000), func(c *run.Case) { replScenario(c, w, caseRng(c)) })
+		case "composite":
+			w.Cases("conc", w.N(1400, 30000), func(c *run.Case) { compositeScenario(c, w, caseRng(c)) })
+		case "ec":
+			w.Cases("conc", w.N(1400, 30000), func(c *run.Case) { ecScenario(c, w, caseRng(c)) })
+		}
+		return
+	}
+	w.Cases("seq", w.N(1600, 50000), func(c *run.Case) { seqCase(c, w, caseRng(c)) })
+	w.Cases("ecache", w.N(800, 20000), func(c *run.Case) { ecacheCase(c, w, caseRng(c)) })
+	w.Cases("conc", w.N(1400, 30000), func(c *run.Case) {
 		r := caseRng(c)
 		switch k := r.Intn(20); {
 		case k < 11:
